@@ -302,9 +302,10 @@ def main(prop_spec):
     for tr in prop_spec.get("translators", []):
         try:
             translator_status[tr.__name__] = tr()
-        except Exception as ex:  # unparsable source: recorded, not a violation by itself
+        except Exception as ex:  # unparsable source: the generated table is stale, so the theorems about it say nothing of this tree
             translator_status[tr.__name__] = "unparsable: %s" % ex
             notes.append("translator %s could not parse the source: %s" % (tr.__name__, ex))
+            broken.append(("proof", "translator %s cannot read the current source (%s): the generated table is not re-derived, the obligations about it are not re-checked" % (tr.__name__, ex)))
 
     # 1. proof obligations
     targets = ["Props/%s.vo" % prop] + ["Run/%s.vo" % r for r in prop_spec.get("runners", [])]
